@@ -1180,9 +1180,14 @@ class Pulse(Function):
 
     def term(self, time="t"):
         if self.interval.element == 0.0:
-            return "(({volume}/{dt}) if abs(({time})-({first_pulse})) < {dt}/2 else 0.0)".format(volume=self.volume.term(time), dt=self.model.dt, time=time, first_pulse=self.first_pulse.term(time))
+            # the pulse belongs to the grid point t with first_pulse in [t - dt/2, t + dt/2): exactly one grid point, also for a
+            # pulse time midway between two grid points (it then goes to the later one)
+            return "(({volume}/{dt}) if ((({time})-({first_pulse})) > -{dt}*0.499999999 and (({time})-({first_pulse})) <= {dt}*0.500000001) else 0.0)".format(volume=self.volume.term(time), dt=self.model.dt, time=time, first_pulse=self.first_pulse.term(time))
         else:
-            return "(({volume}/{dt}) if ((({time})-({first_pulse})) > -{dt}/2 and abs((({time})-({first_pulse})) - ({interval})*round((({time})-({first_pulse}))/({interval}))) < {dt}/2) else 0.0)".format(volume=self.volume.term(time), dt=self.model.dt, time=time, first_pulse=self.first_pulse.term(time), interval=self.interval.term(time))
+            # distance of the time from the nearest pulse time at or after t - dt/2 (ceil, not round: round() goes to the
+            # even neighbour for pulse times midway between two grid points, which would drop every other pulse)
+            distance = "((({time})-({first_pulse})) - ({interval})*math.ceil(((({time})-({first_pulse})) - {dt}*0.500000001)/({interval})))"
+            return ("(({volume}/{dt}) if ((({time})-({first_pulse})) > -{dt}*0.499999999 and " + distance + " > -{dt}*0.499999999 and " + distance + " <= {dt}*0.500000001) else 0.0)").format(volume=self.volume.term(time), dt=self.model.dt, time=time, first_pulse=self.first_pulse.term(time), interval=self.interval.term(time))
 
 
 class Trend(Function):
